@@ -19,6 +19,7 @@ import (
 	"io/fs"
 	"math/rand"
 	"strings"
+	"sync"
 
 	"github.com/andybalholm/brotli"
 	"github.com/klauspost/compress/zstd"
@@ -64,9 +65,16 @@ type Src struct {
 	Chunk  int
 	Fin    error
 	Closed bool
+	Closes int // how often Close was called
 }
 
+// ErrSrcClosed is what a closed Src answers to Read (as a closed response body does).
+var ErrSrcClosed = errors.New("verifc14: read on closed body")
+
 func (s *Src) Read(p []byte) (int, error) {
+	if s.Closed {
+		return 0, ErrSrcClosed
+	}
 	if len(s.Data) == 0 {
 		return 0, s.Fin
 	}
@@ -78,7 +86,61 @@ func (s *Src) Read(p []byte) (int, error) {
 	s.Data = s.Data[n:]
 	return n, nil
 }
-func (s *Src) Close() error { s.Closed = true; return nil }
+func (s *Src) Close() error { s.Closed = true; s.Closes++; return nil }
+
+// StallSrc is a body on a connection whose peer has stopped sending: it delivers Data, then a
+// Read BLOCKS until the body is closed (as a response body does while the server is silent).
+type StallSrc struct {
+	mu     sync.Mutex
+	Data   []byte
+	closed chan struct{}
+	Closes int
+}
+
+func NewStallSrc(data []byte) *StallSrc {
+	return &StallSrc{Data: append([]byte(nil), data...), closed: make(chan struct{})}
+}
+
+func (s *StallSrc) Read(p []byte) (int, error) {
+	s.mu.Lock()
+	select {
+	case <-s.closed:
+		s.mu.Unlock()
+		return 0, ErrSrcClosed
+	default:
+	}
+	if len(s.Data) > 0 && len(p) > 0 {
+		n := copy(p, s.Data)
+		s.Data = s.Data[n:]
+		s.mu.Unlock()
+		return n, nil
+	}
+	s.mu.Unlock()
+	if len(p) == 0 {
+		return 0, nil
+	}
+	<-s.closed
+	return 0, ErrSrcClosed
+}
+
+func (s *StallSrc) Close() error {
+	s.mu.Lock()
+	defer s.mu.Unlock()
+	s.Closes++
+	select {
+	case <-s.closed:
+	default:
+		close(s.closed)
+	}
+	return nil
+}
+
+// NCloses reads the close counter.
+func (s *StallSrc) NCloses() int {
+	s.mu.Lock()
+	defer s.mu.Unlock()
+	return s.Closes
+}
 
 // Term maps an error to the model's classes: "-" nil, "eof", "err1" unexpected EOF,
 // "err3" fs.ErrClosed, "err2" anything else.
@@ -241,12 +303,19 @@ func Payload(r *rand.Rand, class int) []byte {
 	}
 }
 
-// Sizes draws 1-4 Read buffer sizes to be used in turn.
+// Sizes draws 1-4 Read buffer sizes to be used in turn: zero-length reads (which must neither
+// lose data nor report the end early), one byte, small primes, sizes beyond any body. At least
+// one of them is not zero.
 func Sizes(r *rand.Rand) []int {
-	pool := []int{1, 1, 2, 3, 7, 16, 100, 512, 4096, 65536}
+	pool := []int{0, 1, 1, 2, 3, 7, 13, 16, 97, 100, 512, 4096, 65536, 200003}
 	s := make([]int, 1+r.Intn(4))
+	nz := false
 	for i := range s {
 		s[i] = pool[r.Intn(len(pool))]
+		nz = nz || s[i] > 0
+	}
+	if !nz {
+		s[r.Intn(len(s))] = 1 + r.Intn(9)
 	}
 	return s
 }
